@@ -135,8 +135,10 @@ def run(ctx):
         ctx.replay(sims, replayer, label="s2c-sim")
         ctx._phase("mc+s2c", t0)
         t0 = time.time()
-        n = ctx.pick(300, 5000)
-        jobs = [(i + 1, ctx.seed * 1000003 + i, 20) for i in range(n)]
+        # short traces: validation of a trace stops at its first rejected event, and the open finding
+        # F12b rejects about one event in twenty
+        n = ctx.pick(750, 12000)
+        jobs = [(i + 1, ctx.seed * 1000003 + i, 8) for i in range(n)]
         traces = framework.pool_map(random_trace, jobs)
         ctx.validate("webstatic", "Trace_StaticRange", "Trace_StaticRange.cfg", traces, shards=ctx.pick(2, None), sig_fn=_trace_sig)
         ctx._phase("c2s", t0)
